@@ -79,3 +79,19 @@ add("C05", "model_checking",
     "reported); temperature/time/dipole units have no context manager; wavelength of zero energy "
     "is excluded.",
     "DESIGN.md §3 C05")
+add("C09", "model_checking",
+    "exhaustive enumeration of all addition histories (binary expression trees and in-place "
+    "chains) up to a leaf bound, checked against a ledger of components",
+    "Every binary '+' tree (all groupings and orders, leaves with repetition from {Overdamped, "
+    "Overdamped high-temperature, second Overdamped, value-defined as right operand}) with <=3 "
+    "(quick) / <=4 (thorough) leaves, every in-place chain x+=y, x+=x, (x+=y)+=z, for "
+    "CorrelationFunction and SpectralDensity (Overdamped, UnderdampedBrownian), x units used to "
+    "build the leaves {int,1/cm,eV,mixed} x units context around the additions {none,1/cm}; plus "
+    "every position of a different-temperature leaf. Oracle per history: data = sum of the "
+    "separately built components' data, lamb and declared reorganisation energy additive, "
+    "component list = ledger, a copy rebuilt from the component list reproduces the sum, operands "
+    "unchanged (also by refused additions), temperature refusal; measured vs declared "
+    "reorganisation energy (1e-3) and parity of even/odd FT parts for analytic composites.",
+    "Leaf parameter values are one alphabet (three analytic parameter sets); trees above the "
+    "leaf bound not explored; temperature refusal checked for correlation functions only.",
+    "DESIGN.md §3 C09")
